@@ -41,6 +41,8 @@ def main():
     jobs = []
     for d in sorted(glob.glob('/verif/seeded/C*-*')):
         name = os.path.basename(d)
+        if name in res and os.environ.get('ONLYNEW'):
+            continue            # only the changes RESULTS.json does not hold yet (all twenty checks each)
         jobs.append((name, d + '/patch.diff', PROPS if name not in res else changed))
     bad = 0
     with concurrent.futures.ProcessPoolExecutor(max_workers=int(os.environ.get('JOBS', '14'))) as ex:
